@@ -177,6 +177,7 @@ class Registry:
         self.sym_int = {}
         self.sym_truth = {}
         self.sym_float = {}
+        self.sym_calls = {}       # Sym subclass -> call model(interp, obj, args, kwargs)
         self.ctor_models = {}     # class -> assumed constructor model(interp, args, kwargs)
 
     def model(self, f):
@@ -197,6 +198,8 @@ class Interp:
         self.top = top          # function object under verification (never replaced by its contract)
         self.depth = 0
         ctx.interp = self
+        from . import api as _api
+        _api._CURRENT[0] = ctx
         self.trace_calls = []
         self.called_contracts = set()
         self.inlined = set()
@@ -214,6 +217,18 @@ class Interp:
         try:
             if fobj is not None:
                 sig = inspect.signature(fobj)
+                varpos = [p.name for p in sig.parameters.values() if p.kind == p.VAR_POSITIONAL]
+                if varpos and varpos[0] in kwargs and not args:
+                    # a contract passes *args by name: rebuild the positional call
+                    kwargs = dict(kwargs)
+                    star = list(kwargs.pop(varpos[0]))
+                    pos = []
+                    for p in sig.parameters.values():
+                        if p.kind in (p.POSITIONAL_ONLY, p.POSITIONAL_OR_KEYWORD) and p.name in kwargs:
+                            pos.append(kwargs.pop(p.name))
+                        elif p.kind == p.VAR_POSITIONAL:
+                            break
+                    args = pos + star
                 try:
                     ba = sig.bind(*args, **kwargs)
                 except TypeError as e:
@@ -302,6 +317,11 @@ class Interp:
         if isinstance(f, ModelMethod):
             from . import models
             return models.call_method(self, f.self_val, f.name, list(args), kwargs)
+        if isinstance(f, Sym):
+            for k, fn in self.reg.sym_calls.items():
+                if isinstance(f, k):
+                    return fn(self, f, list(args), kwargs)
+            raise Unsupported('call of symbolic value %r' % (f,))
         try:
             m = self.reg.models.get(f)
         except TypeError:
@@ -387,6 +407,10 @@ class Interp:
         if any(isinstance(n, (ast.Yield, ast.YieldFrom, ast.Await)) for n in ast.walk(node)):
             raise Unsupported('generator %s' % f.__qualname__)
         return self.call_function_ast(f, node, args, kwargs)
+
+    def call_pyfunc_body(self, f, args, kwargs):
+        """interpret the body of a Python function, bypassing models and contracts registered for it"""
+        return self.call_function_ast(f, func_ast(f), list(args), dict(kwargs))
 
     def call_opaque(self, f, oq, args):
         from . import models
